@@ -132,6 +132,81 @@ Theorem c12_fuel_always_suffices : forall (hashf : Z -> Z) cap ops a outs,
   arun hashf ainit ops = Some (a, outs) -> herr (ctab (fst (crun hashf (cinit cap) ops))) = false.
 Proof. exact herr_never. Qed.
 
+(* ---- concurrent readers (HtableLtsProofs.v: atomic-step LTS of one writer under the shard lock and any number of
+   lock-free readers; every interleaving) ---- *)
+Require Import KV.HtableLts KV.HtableLtsProofs.
+
+(* a key published throughout a lookup is found with that item *)
+Theorem c12_concurrent_resident_found :
+  forall hashf : Z -> Z,
+         (forall k : Z, 0 <= hashf k) ->
+         forall (g0 : gstate) (r : nat) (k h : Z) (rest : list rop) (sch : list nat) 
+           (g2 : gstate) (o : list Z) (x : item),
+         reachable hashf g0 ->
+         rpcof (rth g0 r) = RB ->
+         rscript (rth g0 r) = RLookup k h :: rest ->
+         rpcof (rth (lfinal g0 sch) r) <> RB ->
+         rscript (rth (lfinal g0 sch) r) = rest ->
+         HtableLts.lstep (lfinal g0 sch) (S r) = Some (g2, o) ->
+         rpcof (rth g2 r) = RB ->
+         ikey x = k ->
+         (forall gj : gstate,
+          In gj (ltrace g0 sch) -> exists p : nat, published (cur_arr (gmem gj)) p x) ->
+         o = [0; 1; ival x].
+Proof. exact resident_key_found. Qed.
+
+(* a key absent throughout is not found *)
+Theorem c12_concurrent_absent_not_found :
+  forall hashf : Z -> Z,
+         (forall k : Z, 0 <= hashf k) ->
+         forall (g0 : gstate) (r : nat) (k h : Z) (rest : list rop) (sch : list nat) 
+           (g2 : gstate) (o : list Z),
+         reachable hashf g0 ->
+         rpcof (rth g0 r) = RB ->
+         rscript (rth g0 r) = RLookup k h :: rest ->
+         rpcof (rth (lfinal g0 sch) r) <> RB ->
+         rscript (rth (lfinal g0 sch) r) = rest ->
+         HtableLts.lstep (lfinal g0 sch) (S r) = Some (g2, o) ->
+         rpcof (rth g2 r) = RB ->
+         (forall (gj : gstate) (it : item), In gj (ltrace g0 sch) -> alive_in it gj -> ikey it <> k) ->
+         o = [0; 0; 0].
+Proof. exact absent_key_not_found. Qed.
+
+(* never another key's value, even when tags collide *)
+Theorem c12_concurrent_never_wrong_key :
+  forall hashf : Z -> Z,
+         (forall k : Z, 0 <= hashf k) ->
+         forall (g0 : gstate) (r : nat) (k h : Z) (rest : list rop) (sch : list nat) 
+           (g2 : gstate) (v : Z),
+         reachable hashf g0 ->
+         rpcof (rth g0 r) = RB ->
+         rscript (rth g0 r) = RLookup k h :: rest ->
+         rpcof (rth (lfinal g0 sch) r) <> RB ->
+         rscript (rth (lfinal g0 sch) r) = rest ->
+         HtableLts.lstep (lfinal g0 sch) (S r) = Some (g2, [0; 1; v]) ->
+         exists it : item, ikey it = k /\ ival it = v.
+Proof. exact never_wrong_key. Qed.
+
+(* per-instant structural invariant in every reachable state *)
+Theorem c12_concurrent_structure_every_instant :
+  forall hashf : Z -> Z,
+         (forall k : Z, 0 <= hashf k) ->
+         forall g : gstate, HtableLtsProofs.reachable hashf g -> WFc hashf g.
+Proof. exact wfc_invariant. Qed.
+
+(* a lookup takes at most n * (w + 1) tag loads, w = writer stores during it *)
+Theorem c12_concurrent_reader_terminates :
+  forall hashf : Z -> Z,
+         (forall k : Z, 0 <= hashf k) ->
+         forall (g1 : gstate) (r : nat) (k h : Z) (sch : list nat) (d i : nat) (k' h' : Z),
+         HtableLtsProofs.reachable hashf g1 ->
+         rpcof (rth g1 r) = R201 k h ->
+         (forall gj : gstate, In gj (ltrace g1 sch) -> rpcof (rth gj r) <> RB) ->
+         rpcof (rth (lfinal g1 sch) r) = R202 d i k' h' \/
+         rpcof (rth (lfinal g1 sch) r) = R203 d i k' h' ->
+         (tagloads r g1 sch + 1 <= length (getarr (gmem (lfinal g1 sch)) d) * (wstores g1 sch + 1))%nat.
+Proof. exact reader_terminates. Qed.
+
 Print Assumptions c12_lookup_is_map.
 Print Assumptions c12_lookup_terminates.
 Print Assumptions c12_lookup_is_map_during_probe.
@@ -153,3 +228,8 @@ Print Assumptions c12_key_never_lost.
 Print Assumptions c12_no_resurrection.
 Print Assumptions c12_live_is_count.
 Print Assumptions c12_fuel_always_suffices.
+Print Assumptions c12_concurrent_resident_found.
+Print Assumptions c12_concurrent_absent_not_found.
+Print Assumptions c12_concurrent_never_wrong_key.
+Print Assumptions c12_concurrent_structure_every_instant.
+Print Assumptions c12_concurrent_reader_terminates.
